@@ -21,6 +21,8 @@ def setup():
     vf.build('cbig', ['cbig.cpp'])
     vf.tlc_gen('gen/MC_C06', CFG['quick'], timeout=900)
     vf.tlc_gen('gen/MC_BigLen', BIG['quick'], timeout=300)
+    vf.build('c06tags', ['c06tags.cpp'])
+    vf.tlc_gen('gen/MC_C06tags', TAGS['quick'], timeout=1800)      # (same arguments as tags_family: the cache key includes them)
 
 
 def big_lines(recs):
@@ -49,6 +51,131 @@ def big_family(rep, tier):
                       {'head': bytes(r['head']).hex(), 'total': r['total'], 'rt': r['rt'], 'back': [r.get('back_kind'), r.get('back_size')], 'err': r.get('err'), 'derr': r.get('derr')})
     rep.coverage['long_length_traces_validated'] = v['validated']
     return v['validated'], len(lines)
+
+
+# ---------------------------------------------------------------- "tags" family: semantic tags and typed arrays (spec/BinTags.tla)
+TAGS = {'quick': 'gen/MC_C06tags_q.cfg', 'thorough': 'gen/MC_C06tags_t.cfg'}
+TAGS_DROP = ('k', 'idx', 'err', 'derr', 'verr')
+
+
+def tags_render(v, limit=160):
+    """short human rendering of a data-model value with tags: bigint<"12">, epoch_second<-1>, h'0102', [..], {..}"""
+    def r(x):
+        k = x[0]
+        if k == 'tagged':
+            return '%s<%s>' % (x[1], r(x[2]))
+        if k == 'tstr':
+            return json.dumps(bytes(x[1]).decode('utf8', 'replace'))
+        if k == 'bstr':
+            return "h'%s'" % bytes(x[1]).hex()
+        if k == 'uint':
+            return str(int.from_bytes(bytes(x[1]), 'big'))
+        if k == 'nint':
+            return str(-1 - int.from_bytes(bytes(x[1]), 'big'))
+        if k in ('f64', 'f32', 'f16'):
+            return 'f:' + bytes(x[1]).hex()
+        if k == 'arr':
+            return '[' + ','.join(r(y) for y in x[1]) + ']'
+        if k == 'map':
+            return '{' + ','.join(r(a) + ':' + r(b) for a, b in x[1]) + '}'
+        return json.dumps(x)
+    s = r(v)
+    return s if len(s) <= limit else s[:limit // 2] + '...' + s[-limit // 2:] + ' (%d chars)' % len(s)
+
+
+def tags_of(v):
+    if v[0] == 'tagged':
+        return {v[1]}
+    if v[0] == 'arr':
+        return set().union(*[tags_of(x) for x in v[1]]) if v[1] else set()
+    if v[0] == 'map':
+        return set().union(*[tags_of(x[1]) for x in v[1]]) if v[1] else set()
+    return set()
+
+
+def tags_sig(r):
+    if r.get('fam') == 'ta':
+        tag, val = 'typed-array:' + r['et'], '%s[%s]' % (r['et'], ','.join(bytes(e).hex() for e in r['el']))
+    else:
+        tag, val = '+'.join(sorted(tags_of(r['v']))) or 'none', tags_render(r['v'])
+    return {'family': 'tags', 'format': r['f'], 'route': r['route'] + ('+typed_arrays' if r.get('ta') else ''), 'tag': tag, 'value': val,
+            'dev': ','.join(sorted(r.get('dev') or []))}
+
+
+def tags_case(r):
+    c = {'fam': r['fam'], 'dev': r.get('dev') or [], 'f': r['f'], 'route': r['route'], 'ta': r.get('ta', False)}
+    c.update({k: r[k] for k in ('v', 'et', 'el') if k in r})
+    return c
+
+
+def tags_validate_all(lines, timeout=1500):
+    """Trace_C06tags in report-all mode (Trace_C06tags_all.cfg): every refused line is reported by the trace spec itself and validation
+    goes on, so the many refused lines of the known-deviation classes cost one TLC pass.  Lines are dealt round-robin to the shards
+    (the few expensive ones - 600-digit bignums - are neighbours in the sorted order).  Returns (validated, rejected indices, states)."""
+    from concurrent.futures import ThreadPoolExecutor
+    if not lines:
+        return 0, [], 0
+    n = max(1, min(vf.NCPU, (len(lines) + 199) // 200))
+    d = vf.ensure(os.path.join(vf.WORK, 'run'))
+
+    def shard(i):
+        idxs = list(range(i, len(lines), n))
+        base = os.path.join(d, 'tagtrace-%d-%d-%d' % (os.getpid(), i, len(lines)))
+        with open(base + '.ndjson', 'w') as fh:
+            fh.write('\n'.join(lines[j] for j in idxs) + '\n')
+        try:
+            r = vf.tlc('trace/Trace_C06tags', 'trace/Trace_C06tags_all.cfg', workers=1, env={'TRACE': base + '.ndjson'}, out_cases=base + '.rej',
+                       xmx='3g', deque=True, timeout=timeout)
+            m = vf.DEPTH_RE.search(r['tail'])
+            if r['rc'] != 0 or not m or int(m.group(1)) != len(idxs) + 1:
+                raise vf.InfraError('trace validation failed to run (Trace_C06tags):\n%s' % r['tail'][-3000:])
+            rej = sorted({idxs[json.loads(x)['rej'] - 1] for x in open(base + '.rej') if x.strip()})
+            return rej, r['distinct']
+        finally:
+            for ext in ('.ndjson', '.rej'):
+                if os.path.exists(base + ext):
+                    os.unlink(base + ext)
+    with ThreadPoolExecutor(max_workers=n) as ex:
+        res = list(ex.map(shard, range(n)))
+    rejected = sorted(j for rej, _ in res for j in rej)
+    return len(lines) - len(rejected), rejected, sum(st for _, st in res)
+
+
+def tags_family(rep, tier):
+    """semantic tags (bigint, bigdec, bigfloat, datetime, epoch_*, uri, base-N hints) and typed arrays: TLC-generated tagged values and
+    std::vector<T> cases through every format / route (harness/c06tags.cpp records), validated by Trace_C06tags against BinTags"""
+    binary = vf.build('c06tags', ['c06tags.cpp'])
+    g = vf.tlc_gen('gen/MC_C06tags', TAGS[tier], timeout=1800)
+    rep.add_tlc(g[1])
+    recs = vf.run_shards(binary, g[0])
+    tr = sorted([r for r in recs if r.get('k') == 'trace'], key=lambda r: (r['f'], r['idx'], r['route'], r['ta']))
+    def csig(r):
+        c = r.get('case') if isinstance(r.get('case'), dict) else {}
+        return {'what': 'crash', 'family': 'tags', 'v': (tags_render(c['v']) if 'v' in c else json.dumps(c)[:200]), 'dev': ','.join(sorted(c.get('dev') or []))}
+    vf.g_triage(rep, binary, [r for r in recs if r.get('k') != 'trace'], csig)
+    lines = [json.dumps({k: v for k, v in r.items() if k not in TAGS_DROP}) for r in tr]
+    validated, rejected, states = tags_validate_all(lines)
+    rep.coverage['states'] += states
+    rep.coverage['transitions'] += states
+    for i in rejected:
+        r = tr[i]
+        rep.violation(tags_sig(r), tags_case(r),
+                      {'enc': r['enc'], 'err': r.get('err'), 'bytes': bytes(r['bytes'][:80]).hex(), 'dec_ok': r['dec_ok'],
+                       'dec': tags_render(r['dec'], 300) if r['dec_ok'] else r.get('derr'), 'vdec_ok': r.get('vdec_ok'),
+                       'vdec': [bytes(e).hex() for e in r['vdec']] if r.get('vdec_ok') else r.get('verr')})
+    cov = rep.coverage
+    cov['traces_validated_against_impl'] += validated
+    cov['evaluations'] += len(lines)
+    cov['tags_family'] = {'cases': g[1]['cases'], 'trace_lines': len(lines), 'accepted': validated, 'refused': len(rejected),
+                          'refused_in_known_deviation_classes': sum(1 for i in rejected if tr[i].get('dev')),
+                          'bounds': open(os.path.join(vf.SPEC, TAGS[tier])).read().split('CONSTANTS')[1].split()}
+    cov['rule'] += ('; tags family (spec/BinTags.tla, spec/gen/MC_C06tags.tla): bigint / bigdec / bigfloat strings built from their grammar (64-bit '
+                    'boundaries +-1, bignum magnitudes of 23/24/25 and 255/256 bytes, huge exponents), date-time / URI / base-N tagged text and byte strings, '
+                    'epoch_second/milli/nano integers, doubles and strings, each alone and nested in arrays / maps next to untagged members, string-packing '
+                    'families with tagged strings and bignums, std::vector<T> of 11 element types x lengths 0-3 x use_typed_arrays; x 4 formats x DOM / '
+                    'streaming / packed / typed / encoder.typed_array routes; every line checked against the reference decoder reading of the bytes '
+                    '(RFC 8949 / 8746 tag content) and the library decode')
+    return validated, len(lines)
 
 
 def collect(binary, path):
@@ -95,12 +222,30 @@ def run(tier):
                    'the format allows for that length, and the library must read it back')
     cov['bounds'] = open(os.path.join(vf.SPEC, CFG[tier])).read().split('CONSTANTS')[1].split()
     cov['samples'] = [json.loads(x) for x in lines[:2]]
+    tags_family(rep, tier)
     rep.assumptions += ['only formats listed in coverage.formats are validated in this run (the others join as their reference decoders are added to Trace_C06)']
     return rep.finish(dict(harness='c06'))
 
 
 def replay(path):
     d = json.load(open(path))
+    if 'fam' in d['case']:              # tags family
+        binary = vf.build('c06tags', ['c06tags.cpp'])
+        c = d['case']
+        recs = vf.run_one(binary, {k: c[k] for k in ('fam', 'v', 'et', 'el', 'dev') if k in c}, args=['--format', c['f']])
+        tr = [r for r in recs if r.get('k') == 'trace' and r.get('route') == c.get('route', r.get('route')) and r.get('ta') == c.get('ta', r.get('ta'))]
+        lines = [json.dumps({k: v for k, v in r.items() if k not in TAGS_DROP}) for r in tr]
+        v = vf.validate_traces('trace/Trace_C06tags', 'trace/Trace_C06tags.cfg', lines)
+        for r in tr:
+            sg = tags_sig(r)
+            print(sg['format'], sg['route'], sg['tag'], sg['value'], 'enc=%s %s' % (r['enc'], r.get('err') or ''), bytes(r['bytes'][:64]).hex(),
+                  'decoded: %s' % (tags_render(r['dec'], 300) if r['dec_ok'] else 'ERROR ' + str(r.get('derr'))),
+                  ('vector: %s' % ([bytes(e).hex() for e in r['vdec']] if r.get('vdec_ok') else 'ERROR ' + str(r.get('verr')))) if 'vdec_ok' in r else '')
+        if v['rejected'] or not tr:
+            print('VIOLATION property=%s replay=%s' % (PROP, path))
+            return 1
+        print('accepted by the trace spec on this tree')
+        return 0
     if 'shape' in d['case']:
         binary = vf.build('cbig', ['cbig.cpp'])
         c = d['case']
